@@ -75,9 +75,17 @@ func main() {
 			g := prog.DefaultGen()
 			g.Sizes = []int{0, 1, 5, 17, 127, 128, 129, 300}
 			d := Desc{Prog: prog.Gen(r, g)}
+			if i%5 == 4 {
+				d.Prog = prog.GenDirected(r, 2) // many keys, several shards: stresses producer-side and machine combiners
+			}
 			d.Strat = append(d.Strat, Strategy{sessionCfgs[1], 128, 128, true})
 			for j := 0; j < 4; j++ {
 				d.Strat = append(d.Strat, Strategy{sessionCfgs[r.Intn(len(sessionCfgs))], r.Pick([]int{1, 2, 4, 128}), r.Pick([]int{1, 2, 128}), r.Bool()})
+			}
+			if i%5 == 4 {
+				// machine combiners on several single-proc machines, repeated: task placement varies
+				d.Strat = []Strategy{{sessionCfgs[1], 128, 128, true}, {sessionCfgs[6], 128, 128, true}, {sessionCfgs[6], 128, 128, false},
+					{sessionCfgs[5], 128, 128, true}, {sessionCfgs[6], 128, 128, true}, {sessionCfgs[4], 128, 128, true}}
 			}
 			descs = append(descs, d)
 		}
